@@ -602,6 +602,24 @@ def run(ctx):
     from ..etf import check_atom_tables
     check_atom_tables(ctx, 'C08.2-atom-interning')
 
+    # the only exception the statement allows: ids that are not non-negative integers of at most 64 bits.  Zero is a non-negative integer.
+    ctx.rule('C08.2-unlink-id-space', 'the integer that becomes the id of UNLINK_ID / UNLINK_ID_ACK (the value narrowed to u64 in from_term, in whatever function the narrowing sits) has the proven range [0, 2^63-1]: '
+             'the range test in front of it turns away negative ids and nothing else', floor=1)
+    if Bp is not None:
+        Rq = Ranges(Bp)
+        n_u = 0
+        for bb, j, st in Bp.stmts():
+            if st['k'] == '=' and st['rv']['k'] == 'cast' and st['rv'].get('ck') == 'IntToInt' and st['rv'].get('from') == 'i64' and st['rv'].get('to') == 'u64':
+                n_u += 1
+                lo, hi = Rq.range_of(st['rv']['op'], bb)
+                if lo > 0 or hi < 2 ** 63 - 1:
+                    ctx.bad('C08.2-unlink-id-space', 'id#%d' % n_u, 'only ids in [%s, %s] are accepted; every integer from 0 to 2^63-1 is a valid unlink id' % (lo, hi), ctx.where(Bp, ln=st['ln']),
+                            key='RANGE:%s:unlink-id-space' % Bp.path)
+                else:
+                    ctx.ok('C08.2-unlink-id-space', 'id#%d' % n_u, 'range at the narrowing is [%s, %s]' % (lo, hi), ctx.where(Bp, ln=st['ln']))
+        if n_u == 0:
+            ctx.ok('C08.2-unlink-id-space', 'id', 'no i64 -> u64 narrowing in the parser (checked conversion)')
+
 
 def _is_field(e, name, into=False):
     if e is None:
